@@ -155,6 +155,7 @@ def run(sc, choices=None):
     if sc.get("prior"):
         cfg["prior"] = dict(sc["prior"])  # the object was used before: an earlier connection was lost mid-frame / mid-message
     cfg["no_multithread"] = bool(sc.get("no_multithread"))
+    cfg["logtrace"] = bool(sc.get("logtrace"))
     cfg["write_fail"] = sc.get("write_fail")
     out = run_recv(int(sc.get("seed", 1)), stream, cfg, res)
     ctx = f"{api}/{'per_fragment' if fire else 'reassembled'}"
@@ -189,6 +190,8 @@ def gen(rng):
         sc["prior"] = pr
     if rng.random() < 0.1:
         sc["no_multithread"] = True  # WebSocket(enable_multithread=False): the no-op lock stand-in
+    if rng.random() < 0.15:
+        sc["logtrace"] = True  # enableTrace(True): frames are formatted for the log on their way
     if rng.random() < 0.08 and not sc.get("sender"):
         sc["write_fail"] = rng.choice(("EPIPE", "ECONNRESET"))  # every write of the client fails: replies are lost, deliveries are not
     return sc
